@@ -87,8 +87,22 @@ def gen_items(rng, g_comb, g_sync, tg_comb, tg_sync, depth, hist, allow_fsm=True
 
 
 def build(m, items, fsms=None):
-    """replay the program through the real DSL; `fsms` collects name -> FSM object"""
+    """replay the program through the real DSL; `fsms` collects name -> FSM object. The signals that watch
+    `fsm.ongoing(state)` are assigned at the top level of the module, after the whole program, so that they are read
+    also while the block enclosing a nested FSM is not selected."""
+    top = fsms is None
     fsms = fsms if fsms is not None else {}
+    try:
+        _build(m, items, fsms)
+    finally:
+        if top:
+            for sig, fsm, sname in fsms.pop("__ongoing__", []):
+                m.d.comb += sig.eq(fsm.ongoing(sname))
+    return fsms
+
+
+def _build(m, items, fsms):
+    build = _build
     for it in items:
         if it[0] == "next":
             m.next = it[1]
@@ -100,7 +114,7 @@ def build(m, items, fsms=None):
                         build(m, body, fsms)
             fsms[name] = fsm
             for sig, sname in og:
-                m.d.comb += sig.eq(fsm.ongoing(sname))
+                fsms.setdefault("__ongoing__", []).append((sig, fsm, sname))
         elif it[0] == "assign":
             _, dom, t, rhs = it
             m.d[dom] += t.eq(rhs)
@@ -175,11 +189,20 @@ def fsm_items(items):
                 yield from fsm_items(body)
 
 
-def ser_prog(items, dom, sigidx, fsm=None):
+def ser_prog(items, dom, sigidx, fsm=None, _top=True):
     """`fsm`: (state signal, encoding) of the innermost enclosing FSM; FSM items are written as what the
     property says they mean: a Switch over the state register, `m.next` an assignment of the encoding in
-    the FSM's domain, `ongoing()` a comparison."""
+    the FSM's domain, `ongoing()` a comparison — unconditional, at the top level of the module."""
     out = []
+    if _top and dom == "comb":
+        tail = []
+        for it in fsm_items(items):
+            st = sigidx["fsm:" + it[1]]
+            enc = fsm_encoding(it)
+            for sig, sname in it[4]:
+                tail.append(f"(= (sig {sigidx[id(sig)]}) (== (sig {sigidx[id(st)]}) (c {enc[sname]} {max(1, enc[sname].bit_length())} u)))")
+        body = ser_prog(items, dom, sigidx, fsm, _top=False)
+        return " ".join(x for x in [body] + tail if x)
     for it in items:
         if it[0] == "next":
             if dom == "sync" and fsm is not None:
@@ -189,28 +212,25 @@ def ser_prog(items, dom, sigidx, fsm=None):
             _, name, init, states, og = it
             st = sigidx["fsm:" + name]
             enc = fsm_encoding(it)
-            cs = " ".join(f"(((i {enc[sn]})) {ser_prog(body, dom, sigidx, (st, enc))})" for sn, body in states)
+            cs = " ".join(f"(((i {enc[sn]})) {ser_prog(body, dom, sigidx, (st, enc), _top=False)})" for sn, body in states)
             out.append(f"(sw (sig {sigidx[id(st)]}) {cs})")
-            if dom == "comb":
-                for sig, sname in og:
-                    out.append(f"(= (sig {sigidx[id(sig)]}) (== (sig {sigidx[id(st)]}) (c {enc[sname]} {max(1, enc[sname].bit_length())} u)))")
         elif it[0] == "assign":
             _, d, t, rhs = it
             if d == dom:
                 out.append(f"(= {ser_value(t, sigidx)} {ser_value(rhs, sigidx)})")
         elif it[0] == "if":
             _, branches, els = it
-            bs = " ".join(f"({ser_value(c, sigidx)} {ser_prog(body, dom, sigidx, fsm)})" for c, body in branches)
-            e = f" (else {ser_prog(els, dom, sigidx, fsm)})" if els is not None else ""
+            bs = " ".join(f"({ser_value(c, sigidx)} {ser_prog(body, dom, sigidx, fsm, _top=False)})" for c, body in branches)
+            e = f" (else {ser_prog(els, dom, sigidx, fsm, _top=False)})" if els is not None else ""
             out.append(f"(if {bs}{e})")
         elif it[0] == "switch":
             _, test, cases = it
             cs = []
             for pats, body in cases:
                 if pats is None:
-                    cs.append(f"(default {ser_prog(body, dom, sigidx, fsm)})")
+                    cs.append(f"(default {ser_prog(body, dom, sigidx, fsm, _top=False)})")
                 else:
-                    cs.append("((" + " ".join(ser_upat(p) for p in pats) + f") {ser_prog(body, dom, sigidx, fsm)})")
+                    cs.append("((" + " ".join(ser_upat(p) for p in pats) + f") {ser_prog(body, dom, sigidx, fsm, _top=False)})")
             out.append(f"(sw {ser_value(test, sigidx)} {' '.join(cs)})")
     return " ".join(out)
 
